@@ -67,7 +67,7 @@ BurnForApp(c, s, app, as, from, amt) ==
 (* BurnGovTokensForApp (wasm binding): burns ANY coin of `from`; the book follows only if (app, asset) has an entry *)
 BurnGov(c, s, app, from, as, amt) ==
   IF app \notin Apps \/ as \notin Assets \/ amt <= 0 THEN TFail(s)
-  ELSE IF c.fix /\ ~Done(s, app, as) THEN TFail(s)
+  ELSE IF c.fix /\ (~Done(s, app, as) \/ s.book[app][as].cur < amt) THEN TFail(s)
   ELSE IF s.bal[from][as] < amt THEN TFail(s)
   ELSE TOk(Book(BurnFrom(s, from, as, amt), app, as, -amt))
 
